@@ -494,13 +494,22 @@ theorem sw_bdatBegin (s : S) : SameWire s (bdatBegin s).1 := by
     · exact hp.trans (hs.trans (sw_delivFinish _ _ _))
     · exact hp.trans hs
 
-theorem wfs_bdatFail (s : S) (left : Nat) (err : BRes) (h : WFS s) : WFS (bdatFail s left err).1 := by
+theorem sw_bdatFailReplies (s : S) (k : Nat) (last : Bool) (err : BRes) : SameWire s (bdatFailReplies s k last err) := by
+  unfold bdatFailReplies
+  split
+  · simp only []
+    split
+    · exact sw_writeLmtpStatuses _ _
+    · split <;> exact sw_writeLmtpStatuses _ _
+  · exact sw_replyB _ _ _ _
+
+theorem wfs_bdatFail (s : S) (k left : Nat) (last : Bool) (err : BRes) (h : WFS s) : WFS (bdatFail s k left last err).1 := by
   unfold bdatFail
   simp only []
   have h1 : WFS (setW s (discardN (wireFuel s.w) s.w left)) := h.setW (discardN_wf _ _ _ h.w)
   generalize setW s (discardN (wireFuel s.w) s.w left) = s1 at h1 ⊢
-  have h2 : WFS (replyB s1 (Reply.dataStatus err).1 (Reply.dataStatus err).2.1 [(Reply.dataStatus err).2.2]) := h1.of_same (sw_replyB _ _ _ _)
-  generalize replyB s1 (Reply.dataStatus err).1 (Reply.dataStatus err).2.1 [(Reply.dataStatus err).2.2] = s2 at h2 ⊢
+  have h2 : WFS (bdatFailReplies s1 k last err) := h1.of_same (sw_bdatFailReplies _ _ _ _)
+  generalize bdatFailReplies s1 k last err = s2 at h2 ⊢
   have h3 : WFS (if err == errPanic then closeConn s2 else s2) := by
     split
     · exact h2.of_same (sw_closeConn _)
@@ -542,10 +551,10 @@ theorem wfs_bdatAfterCopy (s : S) (k size left : Nat) (last : Bool) (ce : CopyEn
     WFS (bdatAfterCopy s k size left last ce).1 := by
   unfold bdatAfterCopy
   split
-  · exact wfs_bdatFail _ _ _ h
-  · exact wfs_bdatFail _ _ _ h
+  · exact wfs_bdatFail _ _ _ _ _ h
+  · exact wfs_bdatFail _ _ _ _ _ h
   · simp only []
-    split <;> exact wfs_bdatFail _ _ _ h
+    split <;> exact wfs_bdatFail _ _ _ _ _ h
   · exact wfs_bdatDone _ _ _ _ h
 
 theorem wfs_bdatChunk (s : S) (size : Nat) (last : Bool) (h : WFS s) : WFS (bdatChunk s size last).1 := by
